@@ -340,7 +340,15 @@ class TypeTransformer:
                 # (dict([{"a": 1, "b": 2}]) == {"a": "b"} would disagree with the no_data_loss result)
                 if multi(data) and any(isinstance(item, Mapping) for item in data):
                     raise TypeError
-                return t(data)
+                if hasattr(data, "keys"):
+                    return t(data)
+                result = {}
+                for item in data:
+                    # unpack instead of dict(data): a pair candidate that is a lazy iterator is read up to its
+                    # third item, never drained (dict() would materialise it: forever, if it does not end)
+                    key, val = item
+                    result[key] = val
+                return t(result)
                 # directly return
             except (TypeError, ValueError):
                 pass
@@ -525,6 +533,10 @@ class TypeTransformer:
             return t.utcfromtimestamp(data).replace(tzinfo=timezone.utc)
 
         data = self._from_byte_like(data)
+        if not isinstance(data, str):
+            # only text is searched / parsed below: `"GMT" in data` on any other iterable would walk through it
+            # (forever, for an endless iterator)
+            raise TypeError('invalid datetime')
         is_utc = "GMT" in data or 'UTC' in data or data.endswith("Z") and "T" in data
         data = data.replace('GMT', '').replace('UTC', '').replace('TZD', '').rstrip('Z').strip()
 
